@@ -291,6 +291,48 @@ pub fn eval_ce(e: &CE, env: &[(String, JV)], inputs: &[(String, JV)]) -> Option<
     })
 }
 
+/// Function-valued members of input documents (`{"__blots_function": source}`): sources the
+/// generator uses, self-contained ones and ones that read a name bound nowhere (`u`, `x`, `y`
+/// are never bound by a generated script).
+pub const FN_OK: &[&str] = &["x => x * 2", "(a, b) => a + b", "y => [y, 1]", "x => x + 1"];
+pub const FN_BAD: &[&str] = &["x => x * u", "(a, b) => a + u", "y => [u, 1]", "y => y * x"]; // paired with FN_OK by index: same shape
+
+fn fn_kind(v: &JV) -> Option<bool> {
+    // any object that has the key is read as a function (other members are dropped)
+    if let JV::Rec(f) = v {
+        if let Some((_, JV::Str(src))) = f.iter().find(|(k, _)| k == "__blots_function") {
+            if FN_OK.contains(&src.as_str()) {
+                return Some(true);
+            }
+            if FN_BAD.contains(&src.as_str()) {
+                return Some(false);
+            }
+        }
+    }
+    None
+}
+
+/// What an `output` of `v` emits: a self-contained function is re-emitted in the CLI's own
+/// spelling (not compared), a function that is not self-contained is refused (`Err`).
+fn as_output(v: &JV) -> Result<JV, ()> {
+    match fn_kind(v) {
+        Some(true) => return Ok(JV::Opaque),
+        Some(false) => return Err(()),
+        None => {}
+    }
+    Ok(match v {
+        JV::List(xs) => JV::List(xs.iter().map(as_output).collect::<Result<Vec<_>, ()>>()?),
+        JV::Rec(f) => {
+            let mut out = vec![];
+            for (k, x) in f {
+                out.push((k.clone(), as_output(x)?));
+            }
+            JV::Rec(out)
+        }
+        other => other.clone(),
+    })
+}
+
 pub fn run_model(stmts: &[CStmt], inputs: &InputsResult) -> Expect {
     let inputs = match inputs {
         InputsResult::Malformed(i) => return Expect::Failure { why: format!("input source {} is malformed", i) },
@@ -315,20 +357,36 @@ pub fn run_model(stmts: &[CStmt], inputs: &InputsResult) -> Expect {
                     Some(v) => {
                         env.push((n.clone(), v.clone()));
                         if matches!(s, CStmt::OutBind(..)) {
-                            JV::rec_insert(&mut outputs, n, v);
+                            match as_output(&v) {
+                                Ok(o) => JV::rec_insert(&mut outputs, n, o),
+                                Err(()) => return Expect::Failure { why: format!("statement {} outputs a function that is not self-contained", i) },
+                            }
                         }
                     }
                     None => return Expect::Unknown,
                 }
             }
             CStmt::Out(n) => {
-                if n == "inputs" {
-                    JV::rec_insert(&mut outputs, n, JV::Rec(inputs.clone()));
+                let v = if n == "inputs" {
+                    // the members of the merged record are values; the record itself is not
+                    let mut members = vec![];
+                    for (k, x) in inputs.iter() {
+                        match as_output(x) {
+                            Ok(o) => members.push((k.clone(), o)),
+                            Err(()) => return Expect::Failure { why: format!("statement {} outputs a function that is not self-contained", i) },
+                        }
+                    }
+                    JV::rec_insert(&mut outputs, n, JV::Rec(members));
+                    continue;
                 } else {
                     match env.iter().find(|(k, _)| k == n) {
-                        Some((_, v)) => JV::rec_insert(&mut outputs, n, v.clone()),
+                        Some((_, v)) => v.clone(),
                         None => return Expect::Failure { why: format!("statement {} outputs unbound {}", i, n) },
                     }
+                };
+                match as_output(&v) {
+                    Ok(o) => JV::rec_insert(&mut outputs, n, o),
+                    Err(()) => return Expect::Failure { why: format!("statement {} outputs a function that is not self-contained", i) },
                 }
             }
             CStmt::OutVisible(n) => {
